@@ -19,6 +19,9 @@ func hash(s string) bitcoin.Hash32 {
 	return *h
 }
 
+// SmuggledNonce only ever appears inside payloads, never in a ping the harness sends.
+const SmuggledNonce = uint64(0xbad0bad0bad0bad0)
+
 var (
 	GenesisHash = hash("000000000019d6689c085ae165831e934ff763ae46a2a6c172b3f1b60a8ce26f")
 
@@ -151,6 +154,24 @@ func init() {
 	add("extmsg/unknown[0]", ExtFrame("whatever", nil))
 	for _, size := range []int{0, 1, 1023, 1024, 1025, 65536, 4 << 20} {
 		add("unknown["+itoa(size)+"]", Frame("xyzzy", make([]byte, size)))
+	}
+	// payloads that contain a complete ping frame aligned to the discard chunk size: if the node
+	// ever resumes parsing inside the payload it answers a ping that was never sent
+	for _, size := range []int{1024, 2048, 3 << 10} {
+		p := make([]byte, size)
+		for off := 0; off+1024 <= size; off += 1024 {
+			copy(p[off:], Msg(wire.NewMsgPing(SmuggledNonce)))
+		}
+		add("unknown["+itoa(size)+":embedded-ping]", Frame("xyzzy", p))
+	}
+	{
+		// an unrequested / wrong block whose payload after the 80-byte header is k*1024 bytes
+		buf := &bytes.Buffer{}
+		Block2.Serialize(buf)
+		rest := make([]byte, 1024)
+		copy(rest, Msg(wire.NewMsgPing(SmuggledNonce)))
+		buf.Write(rest)
+		add("block[block2:1104-bytes]", Frame(wire.CmdBlock, buf.Bytes()))
 	}
 	add("notfound", Frame(wire.CmdNotFound, invPayload(wire.InvTypeTx, *tx0.TxHash())))
 	add("getheaders", Msg(wire.NewMsgGetHeaders()))
